@@ -41,11 +41,27 @@ def proof_part(out, env, pid, ties=()):
     axioms = sorted(set(re.findall(r"^\s*([\w.]+)\s*:", "\n".join(
         blk for blk in re.findall(r"Axioms:\n((?:.+\n)+)", text)), re.M)))
     closed = text.count("Closed under the global context")
+    chk = None
+    if out.tier == "thorough" and ok:
+        # independent re-check of the compiled theorems of this property (and everything they depend on) with coqchk
+        import subprocess as _sp
+        mods = ["GV.Props.%s" % pid] + ["GV." + rel[:-2].replace("/", ".") for rel in ties if env.ok(rel)]
+        try:
+            p = _sp.run(["coqchk", "-silent", "-o", "-Q", ".", "GV"] + mods, cwd=env.dir, stdout=_sp.PIPE, stderr=_sp.STDOUT, text=True, timeout=3000)
+            txt = p.stdout
+            m = re.search(r"\* Axioms:(.*?)\n\s*\n\* Constants/Inductives relying on type-in-type:(.*?)\n\s*\n\* Constants/Inductives relying on unsafe \(co\)fixpoints:(.*?)\n\s*\n\* Inductives whose positivity is assumed:(.*?)\n", txt, re.S)
+            chk = {"rc": p.returncode, "modules": mods,
+                   "axioms": m.group(1).strip() if m else "?", "type_in_type": m.group(2).strip() if m else "?",
+                   "unsafe_fixpoints": m.group(3).strip() if m else "?", "assumed_positivity": m.group(4).strip() if m else "?"}
+            if p.returncode != 0 or not m or any(chk[k] != "<none>" for k in ("axioms", "type_in_type", "unsafe_fixpoints", "assumed_positivity")):
+                out.broke("coqchk:Props/%s.v" % pid, txt[-2000:])
+        except _sp.TimeoutExpired:
+            chk = {"rc": "timeout", "modules": mods}
     out.coverage.update({
         "obligations": len(obligations), "discharged": len(discharged),
         "obligation_names": obligations,
         "checker_cmd": "coq_makefile -f _CoqProject -o Makefile && make -k -j16 (in .cache/<tree>/coq_*), then coqc -Q . GV Props/%s.v" % pid,
-        "assumptions_report": {"closed_under_global_context": closed, "axioms": axioms},
+        "assumptions_report": dict({"closed_under_global_context": closed, "axioms": axioms}, **({"coqchk": chk} if chk else {})),
     })
     return ok
 
